@@ -16,6 +16,17 @@
 //!   replay = scenario + outcome + the model's schedule reaching that outcome (if it has one).
 //! * Correspondence: per scenario, implementation outcome set == model outcome set
 //!   (`outcomes fixed <scenario>`), else `FailKind::Model`.
+//! * Two writers (`c<credit>-w2[-a<n>|-x]*`): `poll_write_push` / `poll_obtain_write_permission` take
+//!   `&self` and `MuxStream` is `Sync`, so two threads can poll the write side of one stream at the
+//!   same time in safe code. The hook shares one stream between two writer threads (one poll each, own
+//!   waker each) racing with each other and the actors. The Lean model has a single writer, so these
+//!   scenarios are judged by the independent monitor only (`monitor_shared`): frames and `Ready(Some)`
+//!   polls never exceed initial credit + grants (no send without a unit), the final counter equals
+//!   initial + grants - takes, frames = takes, and a writer left `Pending` while credit is available or
+//!   the stream is closed has seen a wake-up delivered to the stream's waker slot after its poll began
+//!   (the stream has ONE waker slot, so with two tasks waiting only that is promised: the later
+//!   registration replaces the earlier one). Keys `two-writers:<scenario>:<violation>:<outcome>`; the
+//!   replay carries the order of operation starts / returns of the first execution reaching the outcome.
 
 use pvh::{Args, Driver, FailKind, Report, Tier, fnv, json};
 use std::collections::{BTreeMap, BTreeSet};
@@ -30,12 +41,20 @@ const FAMILY: &[&str] = &[
     "c1-p2-a1", "c1-p2-x", "c1-p2-a1-x", "c1-p2-a1-a1", "c1-p2-a1-a1-x",
 ];
 
+/// Two writer threads on one stream (`scenarios!` in `verif_loom.rs`), `c<credit>-w2[-a<n>|-x]*`.
+const TWO_WRITERS: &[&str] = &[
+    "c0-w2", "c0-w2-a1", "c0-w2-x", "c0-w2-a2", "c0-w2-a1-a1", "c0-w2-a1-x", "c0-w2-a2-x", "c0-w2-a1-a1-x",
+    "c1-w2", "c1-w2-a1", "c1-w2-x", "c1-w2-a2", "c1-w2-a1-a1", "c1-w2-a1-x", "c1-w2-a2-x", "c1-w2-a1-a1-x",
+];
+
 const TARGET_DIR: &str = "/verif/.build/cargo-target-loom";
 
 #[derive(Clone, Debug)]
 struct Scenario {
     credit: u64,
     polls: usize,
+    /// `w<n>`: writer threads sharing the stream, one poll each; 0 in a `p<n>` scenario
+    writers: usize,
     /// `Some(n)` = `acknowledge(n)`, `None` = `disallow_write()`
     actors: Vec<Option<u64>>,
 }
@@ -43,7 +62,11 @@ struct Scenario {
 fn parse_scenario(name: &str) -> Option<Scenario> {
     let mut it = name.split('-');
     let credit = it.next()?.strip_prefix('c')?.parse().ok()?;
-    let polls = it.next()?.strip_prefix('p')?.parse().ok()?;
+    let second = it.next()?;
+    let (polls, writers) = match second.strip_prefix('w') {
+        Some(w) => (1, w.parse().ok().filter(|w| *w >= 2)?),
+        None => (second.strip_prefix('p')?.parse().ok()?, 0),
+    };
     let mut actors = vec![];
     for t in it {
         if t == "x" {
@@ -52,12 +75,12 @@ fn parse_scenario(name: &str) -> Option<Scenario> {
             actors.push(Some(t.strip_prefix('a')?.parse().ok()?));
         }
     }
-    Some(Scenario { credit, polls, actors })
+    Some(Scenario { credit, polls, writers, actors })
 }
 
-/// Threads of a scenario: the writer plus one per actor.
+/// Threads of a scenario: the writer(s) plus one per actor.
 fn threads(name: &str) -> usize {
-    parse_scenario(name).map_or(usize::MAX, |s| 1 + s.actors.len())
+    parse_scenario(name).map_or(usize::MAX, |s| s.writers.max(1) + s.actors.len())
 }
 
 #[derive(Debug)]
@@ -65,6 +88,8 @@ struct Outcome {
     res: Vec<String>,
     credit: u64,
     wakes: Vec<u64>,
+    /// two-writer scenarios: per writer, wake-ups delivered to any writer's waker after its poll began
+    after: Option<Vec<u64>>,
     closed: bool,
     frames: u64,
 }
@@ -79,13 +104,18 @@ fn parse_outcome(s: &str) -> Option<Outcome> {
         let (k, v) = kv.split_once('=')?;
         m.insert(k, v);
     }
-    if m.len() != 5 {
+    if m.len() != 5 + usize::from(m.contains_key("after")) {
         return None;
     }
+    let nums = |s: &str| parse_list(s).iter().map(|x| x.parse().ok()).collect::<Option<Vec<u64>>>();
     Some(Outcome {
         res: parse_list(m.get("res")?),
         credit: m.get("credit")?.parse().ok()?,
-        wakes: parse_list(m.get("wakes")?).iter().map(|x| x.parse().ok()).collect::<Option<_>>()?,
+        wakes: nums(m.get("wakes")?)?,
+        after: match m.get("after") {
+            Some(a) => Some(nums(a)?),
+            None => None,
+        },
         closed: match *m.get("closed")? {
             "0" => false,
             "1" => true,
@@ -97,7 +127,10 @@ fn parse_outcome(s: &str) -> Option<Outcome> {
 
 /// The property's monitor on a final outcome (every other thread joined). `None` = holds.
 fn monitor(sc: &Scenario, o: &Outcome) -> Option<&'static str> {
-    if o.res.len() != sc.polls || o.wakes.len() != sc.polls {
+    if sc.writers >= 2 {
+        return monitor_shared(sc, o);
+    }
+    if o.after.is_some() || o.res.len() != sc.polls || o.wakes.len() != sc.polls {
         return Some("malformed");
     }
     let grants: u64 = sc.actors.iter().flatten().sum();
@@ -118,7 +151,40 @@ fn monitor(sc: &Scenario, o: &Outcome) -> Option<&'static str> {
     }
 }
 
+/// The monitor for a stream polled by `sc.writers` writer threads at once (one poll each).
+/// Independent of the Lean model (which has one writer). `None` = holds.
+fn monitor_shared(sc: &Scenario, o: &Outcome) -> Option<&'static str> {
+    let n = sc.writers;
+    let Some(after) = &o.after else { return Some("malformed") };
+    if o.res.len() != n || o.wakes.len() != n || after.len() != n || o.wakes.iter().zip(after).any(|(w, a)| w > a) {
+        return Some("malformed");
+    }
+    let grants: u64 = sc.actors.iter().flatten().sum();
+    let obtainable = sc.credit + grants;
+    let taken = o.res.iter().filter(|r| *r == "S").count() as u64;
+    let should_close = sc.actors.iter().any(Option::is_none);
+    // a writer left Pending although it could proceed / should fail, and no wake-up reached the
+    // stream's waker slot since its poll began
+    let asleep = (0..n).any(|i| o.res[i] == "P" && after[i] == 0 && (o.credit > 0 || o.closed));
+    if taken > obtainable || o.frames > obtainable {
+        // initial + grants - sent would be negative: somebody sent without a unit
+        Some("no-credit")
+    } else if o.credit + taken != obtainable {
+        Some("conservation")
+    } else if o.frames != taken {
+        Some("frames")
+    } else if asleep {
+        Some("lost-wakeup")
+    } else if o.closed != should_close {
+        Some("closed-flag")
+    } else {
+        None
+    }
+}
+
 struct LoomRun {
+    /// (scenario, outcome) -> events of the first execution reaching it (two-writer scenarios)
+    schedules: BTreeMap<(String, String), String>,
     outcomes: BTreeMap<String, BTreeSet<String>>,
     explored: BTreeMap<String, u64>,
     ok: bool,
@@ -161,6 +227,7 @@ fn run_loom(scenarios: &[String], max_preemptions: Option<u32>, test_threads: us
     let out = cmd.output().expect("run cargo test in /repo");
     let text = format!("{}\n{}", String::from_utf8_lossy(&out.stdout), String::from_utf8_lossy(&out.stderr));
     let mut run = LoomRun {
+        schedules: BTreeMap::new(),
         outcomes: BTreeMap::new(),
         explored: BTreeMap::new(),
         ok: out.status.success(),
@@ -174,6 +241,11 @@ fn run_loom(scenarios: &[String], max_preemptions: Option<u32>, test_threads: us
             if t.len() == 3 {
                 run.outcomes.entry(t[1].to_string()).or_default().insert(t[2].to_string());
             }
+        } else if let Some(p) = line.find("SCHEDULE ") {
+            let t: Vec<&str> = line[p..].split_whitespace().collect();
+            if t.len() == 4 {
+                run.schedules.insert((t[1].to_string(), t[2].to_string()), t[3].to_string());
+            }
         } else if let Some(p) = line.find("EXPLORED ") {
             let t: Vec<&str> = line[p..].split_whitespace().collect();
             if t.len() == 3 {
@@ -183,7 +255,7 @@ fn run_loom(scenarios: &[String], max_preemptions: Option<u32>, test_threads: us
     }
     let lines: Vec<&str> = text
         .lines()
-        .filter(|l| !l.contains("OUTCOME ") && !l.contains("EXPLORED ") && !l.starts_with("warning") && !l.trim().is_empty())
+        .filter(|l| !l.contains("OUTCOME ") && !l.contains("EXPLORED ") && !l.contains("SCHEDULE ") && !l.starts_with("warning") && !l.trim().is_empty())
         .collect();
     run.tail = lines[lines.len().saturating_sub(25)..].join("\n");
     run.secs = t0.elapsed().as_secs_f64();
@@ -207,6 +279,64 @@ impl Ctx {
         json!("the model does not reach this outcome")
     }
 
+    /// Two writer threads on one stream: the independent monitor only (the model has one writer).
+    #[allow(clippy::too_many_arguments)]
+    fn evaluate_shared(
+        &mut self,
+        name: &str,
+        sc: &Scenario,
+        imp: &BTreeSet<String>,
+        run: &LoomRun,
+        execs: u64,
+        max_preemptions: Option<u32>,
+        forbidden: &BTreeMap<String, Vec<(String, String)>>,
+    ) {
+        self.rep.count("two-writers:scenarios(monitor only, the model has one writer)");
+        for o in imp {
+            self.rep.nontrivial.insert(fnv(format!("{name} {o}").as_bytes()));
+            for r in o.split(';').next().unwrap_or("").trim_start_matches("res=").split(',') {
+                self.rep.count(&format!("two-writers:poll-result:{r}"));
+            }
+            let verdict = parse_outcome(o).map_or(Some("malformed"), |p| monitor(sc, &p));
+            let listed = forbidden.get(name).and_then(|v| v.iter().find(|(f, _)| f == o));
+            if verdict.is_none() && listed.is_none() {
+                continue;
+            }
+            let what = verdict.unwrap_or("corpus-forbidden");
+            let schedule = run.schedules.get(&(name.to_string(), o.clone())).cloned();
+            let grants: u64 = sc.actors.iter().flatten().sum();
+            let desc = match what {
+                "no-credit" => format!(
+                    "a frame was sent without a unit of credit: in scenario {name} (two threads polling poll_write_push on one stream, initial credit {} and {grants} granted) loom reaches the final outcome {o} on the real code — more Ready(Some) polls / Push frames than units of credit ever obtained, i.e. initial + grants - frames sent is negative",
+                    sc.credit
+                ),
+                "conservation" => format!(
+                    "credit conservation broken with two writers: scenario {name} ends in {o}; final credit + successful takes differs from initial credit {} + grants {grants}",
+                    sc.credit
+                ),
+                "frames" => format!("scenario {name} ends in {o}: the number of Push frames queued differs from the number of Ready(Some) polls"),
+                "lost-wakeup" => format!(
+                    "lost wake-up with two writers: scenario {name} ends in {o} — a writer's poll returned Pending, no wake-up was delivered to the stream's waker slot after that poll began, all other threads have finished, yet credit is available or the stream is closed"
+                ),
+                other => format!("scenario {name} ends in {o}: {other}"),
+            };
+            self.rep.fail(
+                FailKind::Impl,
+                &format!("two-writers:{name}:{what}:{o}"),
+                &desc,
+                json!({
+                    "scenario": name, "outcome": o, "violation": what, "max_preemptions": max_preemptions,
+                    "model_schedule": "the model has one writer; judged by the conservation / wake-up monitor only",
+                    "schedule": schedule,
+                    "schedule_legend": "order of operation starts and returns in the first loom execution reaching the outcome: w<i>+ / w<i>=<S|P|N> writer i calls / returns from poll_write_push, a<n>#<j>+ / . acknowledge(n) begins / has returned, x#<j> disallow_write; a start is recorded before the operation's first atomic step, a return after its last",
+                    "corpus": listed.map(|(_, f)| f.clone()),
+                    "note": "loom's exploration is deterministic: re-running the scenario reproduces the outcome set",
+                }),
+            );
+        }
+        self.rep.sample(json!({"scenario": name, "loom_executions": execs, "outcomes_impl": imp.len(), "judged_by": "monitor only"}));
+    }
+
     /// Monitor + correspondence for one group of scenarios that was run with one loom setting.
     fn evaluate(&mut self, scenarios: &[String], run: &LoomRun, max_preemptions: Option<u32>, forbidden: &BTreeMap<String, Vec<(String, String)>>) {
         let bound = max_preemptions.map_or("unbounded".to_string(), |n| n.to_string());
@@ -224,7 +354,7 @@ impl Ctx {
             let execs = run.explored.get(name).copied().unwrap_or(0);
             self.rep.evaluations += execs;
             self.rep.count_n(&format!("executions:{name}"), execs);
-            self.rep.count_n(&format!("threads:{}", 1 + sc.actors.len()), 1);
+            self.rep.count_n(&format!("threads:{}", threads(name)), 1);
             self.rep.count_n(&format!("preemption-bound:{bound}"), 1);
             if imp.is_empty() {
                 self.rep.fail(
@@ -233,6 +363,10 @@ impl Ctx {
                     &format!("the loom hook printed no outcome for scenario {name}: {}", run.tail),
                     json!({"scenario": name, "max_preemptions": max_preemptions}),
                 );
+                continue;
+            }
+            if sc.writers >= 2 {
+                self.evaluate_shared(name, &sc, &imp, run, execs, max_preemptions, forbidden);
                 continue;
             }
             // monitor on every implementation outcome
@@ -362,6 +496,9 @@ fn replay(path: &str) -> i32 {
     if !rp["model_schedule"].is_null() {
         println!("model schedule reaching it: {}", rp["model_schedule"]);
     }
+    if let Some(s) = rp["schedule"].as_str() {
+        println!("recorded order of operation starts / returns: {s}");
+    }
     let run = run_loom(&[name.to_string()], bound, 1, true);
     if !run.ok {
         println!("the loom run failed:\n{}", run.tail);
@@ -371,6 +508,9 @@ fn replay(path: &str) -> i32 {
     for o in &set {
         let verdict = parse_outcome(o).map_or(Some("malformed"), |p| monitor(&sc, &p));
         println!("  {o}  {}", verdict.unwrap_or("ok"));
+        if let (Some(_), Some(s)) = (verdict, run.schedules.get(&(name.to_string(), o.clone()))) {
+            println!("      reached by: {s}");
+        }
     }
     if set.contains(outcome) {
         println!("STILL FAILS: the implementation reaches {outcome}");
@@ -390,7 +530,10 @@ fn main() {
     let rule = "each loom execution (one interleaving, under loom's C11 model, of the real poll_write_push / \
 poll_obtain_write_permission with the real acknowledge / disallow_write on other threads) ends in a final outcome \
 (poll results, credit, wakes per poll, closed, frames) that the monitor judges; evaluations = loom executions; \
-every scenario has at least one racing thread, so all are non-trivial; distinct = distinct (scenario, outcome) pairs";
+every scenario has at least one racing thread, so all are non-trivial; distinct = distinct (scenario, outcome) pairs; \
+the c<n>-w2-* scenarios share one stream between two writer threads (poll_write_push takes &self) and are judged by the \
+monitor only: takes and frames never exceed initial credit + grants, final credit = initial + grants - takes, and a \
+Pending writer that could proceed or should fail has seen a wake-up reach the stream's single waker slot";
     let mut cx = Ctx {
         rep: Report::new("waker", &args, rule),
         drv: args.driver.as_deref().map(|p| Driver::spawn(p, &[]).expect("start Lean driver")),
@@ -399,15 +542,25 @@ every scenario has at least one racing thread, so all are non-trivial; distinct 
     // Scenarios with at most 3 threads (the writer and one or two of {acknowledge, close} — the
     // property's quantifier) are explored without a preemption bound; the 4-thread ones only in
     // `thorough`, with loom's preemption bound.
-    let mut small: Vec<String> = FAMILY.iter().filter(|s| threads(s) <= 3).map(|s| (*s).to_string()).collect();
+    let mut small: Vec<String> =
+        FAMILY.iter().chain(TWO_WRITERS).filter(|s| threads(s) <= 3).map(|s| (*s).to_string()).collect();
     for s in forbidden.keys() {
         if !small.contains(s) && threads(s) <= 3 {
             small.push(s.clone());
         }
     }
+    // Two writers: every scenario is (also) explored with a preemption bound — the 4- and 5-thread ones
+    // because of their state space, the smaller ones (which are in `small` as well) because an
+    // exploration without bound does not end when the code under test lets two writers spin on each
+    // other's transient counter values (loom gives up with "exceeded maximum number of branches" and
+    // the scenario yields no outcome at all), while a bounded one still reaches the final outcomes.
+    let mut shared4: Vec<String> = TWO_WRITERS.iter().filter(|s| threads(s) <= 4).map(|s| (*s).to_string()).collect();
+    let mut shared5: Vec<String> = TWO_WRITERS.iter().filter(|s| threads(s) == 5).map(|s| (*s).to_string()).collect();
     if args.opt("--only") == Some("credit") {
         // C03's use of this runner: only the races between a writer taking credit and acknowledgements
         small.retain(|s| !s.contains("-x"));
+        shared4.retain(|s| !s.contains("-x"));
+        shared5.retain(|s| !s.contains("-x"));
     }
     let large: Vec<String> = FAMILY.iter().filter(|s| threads(s) > 3).map(|s| (*s).to_string()).collect();
     let par = std::thread::available_parallelism().map_or(4, std::num::NonZero::get).min(8);
@@ -415,19 +568,45 @@ every scenario has at least one racing thread, so all are non-trivial; distinct 
         Tier::Quick => (par, None),
         Tier::Thorough => (par, Some(args.opt("--max-preemptions").and_then(|s| s.parse().ok()).unwrap_or(4u32))),
     };
-    let run = run_loom(&small, None, threads_small, false);
-    cx.rep.notes.push(format!(
-        "{} scenarios with <= 3 threads explored by loom without preemption bound in {:.1}s (incl. building the test target)",
-        small.len(), run.secs
-    ));
-    cx.evaluate(&small, &run, None, &forbidden);
-    if let Some(b) = large_bound {
-        let run = run_loom(&large, Some(b), par, false);
+    // quick: both two-writer groups with 2 preemptions in one run; thorough: up to 4 threads with the
+    // bound of the 4-thread single-writer scenarios, 5 threads with one preemption less (state space)
+    let shared_groups: Vec<(Vec<String>, u32)> = match large_bound {
+        None => vec![(shared4.iter().chain(&shared5).cloned().collect(), 2)],
+        Some(b) => vec![(shared4, b), (shared5, b.saturating_sub(1).max(2))],
+    }
+    .into_iter()
+    .filter(|(g, _)| !g.is_empty())
+    .collect();
+    // The two-writer groups run as separate processes next to the runs below, one test thread each:
+    // loom executions in several threads of ONE process contend in the kernel (a stack mapping per
+    // modelled thread and execution) and take longer than in sequence. (They wait on cargo's build
+    // lock until the first run has built the test target.)
+    let shared_runs: Vec<LoomRun> = std::thread::scope(|scope| {
+        let handles: Vec<_> =
+            shared_groups.iter().map(|(group, b)| scope.spawn(move || run_loom(group, Some(*b), 1, false))).collect();
+        let run = run_loom(&small, None, threads_small, false);
         cx.rep.notes.push(format!(
-            "{} scenarios with 4 threads explored by loom with LOOM_MAX_PREEMPTIONS={b} in {:.1}s",
-            large.len(), run.secs
+            "{} scenarios with <= 3 threads explored by loom without preemption bound in {:.1}s (incl. building the test target)",
+            small.len(), run.secs
         ));
-        cx.evaluate(&large, &run, Some(b), &forbidden);
+        cx.evaluate(&small, &run, None, &forbidden);
+        if let Some(b) = large_bound {
+            let run = run_loom(&large, Some(b), par, false);
+            cx.rep.notes.push(format!(
+                "{} scenarios with 4 threads explored by loom with LOOM_MAX_PREEMPTIONS={b} in {:.1}s",
+                large.len(), run.secs
+            ));
+            cx.evaluate(&large, &run, Some(b), &forbidden);
+        }
+        handles.into_iter().map(|h| h.join().expect("loom run thread")).collect()
+    });
+    for ((group, b), run) in shared_groups.into_iter().zip(shared_runs) {
+        cx.rep.notes.push(format!(
+            "{} two-writer scenarios (2-5 threads) explored by loom with LOOM_MAX_PREEMPTIONS={b} in {:.1}s \
+             (own process, alongside the runs above)",
+            group.len(), run.secs
+        ));
+        cx.evaluate(&group, &run, Some(b), &forbidden);
     }
     cx.rep.exhaustive = false;
     cx.rep.notes.push(
